@@ -431,15 +431,44 @@ def emit(neighbor, neg, api, text, via='api'):
     return out, None
 
 
-def run_case(sidx, s, r):
-    neighbor, neg, api = get_session(sidx, s)
+def emit_config(s, text):
+    """The same route through the configuration-file path: a full neighbor section holding the route."""
+    from exabgp.rib.outgoing import OutgoingRIB
+
+    exa.reset_process_state()
+    cfg_text = session_text(s).rstrip()
+    assert cfg_text.endswith('}')
+    cfg_text = cfg_text[:-1] + '  static {\n    ' + text + ';\n  }\n}\n'
+    cfg, ok = exa.parse_config(cfg_text)
+    if not ok:
+        return None, 'refused'
+    (neighbor,) = list(cfg.neighbors.values())
+    neg = exa.negotiated_for(neighbor, peer_open(s))
+    rib = OutgoingRIB(True, neighbor.rib.outgoing.families)
+    for route in neighbor.routes:
+        rib.add_to_rib(neighbor.resolve_self(route))
+    out = []
+    for upd in rib.updates(neighbor.group_updates):
+        for raw in upd.messages(neg, True):
+            msgs, err, rest = wire.split_stream(bytes(raw), neg.msg_size)
+            if err or rest:
+                return None, f'unframed {err}'
+            out += msgs
+    return out, None
+
+
+def run_case(sidx, s, r, via='api'):
     text = render_route(r)
     try:
-        msgs, err = emit(neighbor, neg, api, text)
+        if via == 'config':
+            msgs, err = emit_config(s, text)
+        else:
+            neighbor, neg, api = get_session(sidx, s)
+            msgs, err = emit(neighbor, neg, api, text)
     except Exception as e:  # noqa: BLE001
         return [(f'exception:{type(e).__name__}:{_kw(r)}', f'{type(e).__name__}: {e} for "{text}"')], text
     if err == 'refused':
-        return [(f'refused:{_kw(r)}', f'well-formed route text refused: "{text}"')], text
+        return [(f'refused:{via}:{_kw(r)}', f'well-formed route text refused ({via} path): "{text}"')], text
     if err:
         return [('unframed', err)], text
     return [(sig + _ctx(sig, r, s), what + f'  [route "{text[:200]}" session {s}]') for sig, what in compare(r, s, msgs)], text
@@ -487,6 +516,28 @@ def worker(args):
                             res['viol'][sig] = (v[0], v[1], v[2] + 1)
                     if len(res['samples']) < 1 and attrs and shard == 0:
                         res['samples'].append({'text': text, 'session': s})
+    # configuration-file path: the core shapes, no attribute and every single attribute deviation
+    for sidx, s in enumerate(sess):
+        if sidx % 4:
+            continue  # the configuration path re-parses a whole file per case: every fourth session
+        for (afi, safi, p, pid) in sorted(core_shapes, key=repr):
+            lab = None if safi == 1 else LABELS[1]
+            rd = RDS[0] if safi == 128 else None
+            for nh in nexthops(afi, s)[:1]:
+                for attrs in attr_sets(1):
+                    idx += 1
+                    if idx % nshards != shard:
+                        continue
+                    r = dict(afi=afi, safi=safi, prefix=p, pid=pid, labels=lab, rd=rd, nh=nh, attrs=attrs)
+                    viols, text = run_case(sidx, s, r, via='config')
+                    res['exec'] += 1
+                    res['config_path'] = res.get('config_path', 0) + 1
+                    for sig, what in viols:
+                        sig = sig if sig.startswith('refused:') else 'config:' + sig
+                        v = res['viol'].get(sig)
+                        case = {'session': s, 'route': _jsonable(r), 'via': 'config'}
+                        res['viol'][sig] = (what, case, 1) if v is None else (v[0], v[1], v[2] + 1)
+    _S.clear()
     res['outcomes'] = list(res['outcomes'])
     return res
 
@@ -534,6 +585,7 @@ def run(ctx: core.Ctx) -> None:
         for res in pool.imap_unordered(worker, [(ctx.tier, i, nshards) for i in range(nshards)]):
             ctx.count('executions', res['exec'])
             ctx.count('nontrivial', res['nontrivial'])
+            ctx.count('config_path_cases', res.get('config_path', 0))
             outcomes.update(res['outcomes'])
             for smp in res['samples']:
                 ctx.sample(smp)
@@ -551,5 +603,6 @@ def run(ctx: core.Ctx) -> None:
 def replay(case):
     s = case['session']
     r = _from_json(case['route'])
-    viols, text = run_case(0, s, r)
-    return [{'signature': sig, 'what': what} for sig, what in viols]
+    via = case.get('via', 'api')
+    viols, text = run_case(0, s, r, via=via)
+    return [{'signature': sig if (via == 'api' or sig.startswith('refused:')) else 'config:' + sig, 'what': what} for sig, what in viols]
